@@ -64,6 +64,40 @@ def sccs(net):
     return out
 
 
+def _search_auxmap(net, rs, ins, aux):
+    from itertools import permutations
+    if len(aux) > 3 or len(ref.inputs(rs)) > 14:
+        return None
+    free = sorted(ref.inputs(rs))
+    try:
+        tr, _, _ = ref.truth_tables(rs, free)
+    except ref.RefError:
+        return None
+    mask, order, full = ref.consistency_mask(net)
+    idx = {n: i for i, n in enumerate(order)}
+    states = []
+    mm = mask
+    while mm:
+        low = mm & -mm
+        states.append(low.bit_length() - 1)
+        mm ^= low
+    cand_nodes = [n for n in order if net["nodes"][n][0] != "input"]
+    for combo in permutations(cand_nodes, len(aux)):
+        amap = dict(zip(aux, combo))
+        ok = True
+        for i in states:
+            j = 0
+            for p, a in enumerate(free):
+                v = (i >> idx[a]) & 1 if a in ins else (i >> idx[amap[a]]) & 1
+                j |= v << p
+            if any(((tr[o] >> j) & 1) != ((i >> idx[o]) & 1) for o in ref.outputs(net)):
+                ok = False
+                break
+        if ok:
+            return amap
+    return None
+
+
 def run(case, ctx):
     cg = ctx.cg
     net = case["net"]
@@ -101,20 +135,29 @@ def run(case, ctx):
         ctx.violate("C18.inputs", f"original inputs {sorted(set(ins) - set(rin))} are missing", sig)
     aux = [a for a in rin if a not in ins]
     auxmap = {}
+    by_name = True
     for a in aux:
         cands = [f for f in nodes if a.endswith("aux_in_" + f)]
-        if not cands:
-            ctx.violate("C18.aux_name", f"auxiliary input {a} is not named after an original node", sig)
-        f = max(cands, key=len)
-        if f in auxmap.values():
-            ctx.violate("C18.aux_dup", f"two auxiliary inputs for node {f}", sig)
-        auxmap[a] = f
+        if not cands or max(cands, key=len) in auxmap.values():
+            by_name = False
+            break
+        auxmap[a] = max(cands, key=len)
+    if not by_name:
+        # the property does not prescribe how auxiliary inputs are named: fall back to searching for an injective
+        # assignment of auxiliary inputs to original nodes under which every stable state is reproduced
+        ctx.probe("aux_mapping_searched")
+        auxmap = _search_auxmap(net, rs, ins, aux)
+        if auxmap is None:
+            if len(aux) > 3:
+                raise Skip("auxiliary inputs not recognisable by name and too many to search")
+            ctx.violate("C18.no_consistent_cut", f"no assignment of the auxiliary inputs {aux} to distinct original nodes "
+                        f"reproduces every stable state at the outputs", sig)
     if len(aux) >= 2:
         ctx.probe("feedback_nodes>=2")
     # every cycle must contain a cut node
     cut = set(auxmap.values())
     rest = {"name": "r", "nodes": {n: [t, [f for f in fi if f not in cut], o] for n, (t, fi, o) in nodes.items()}, "bbs": {}}
-    if ref.is_cyclic(rest):
+    if by_name and ref.is_cyclic(rest):
         ctx.violate("C18.cut_incomplete", f"the auxiliary inputs {sorted(cut)} do not cut every cycle", sig)
     if sorted(ref.free_nodes(rs)) != sorted(rin):
         ctx.violate("C18.free", f"free signals {sorted(ref.free_nodes(rs))} != inputs {sorted(rin)}", sig)
